@@ -83,7 +83,17 @@ void harness(void)
         for (g = 0; g < G; g++) { for (i = 0; i < 8; i++) { ram0[g][i] = od_para_ram[g][i]; } }
         for (i = 0; i < 8 * G; i++) { nvm0[i] = env_nvm[i]; }
         env_paradef_n = 0;
-        if (o == 'a') {
+        if (o == 'u') {
+            /* SDO uploads of the store / restore objects are reads: neither RAM nor NVM changes */
+            uint8_t d[8] = { 0x40, 0x10, 0x10, 0, 0, 0, 0, 0 };
+            static uint8_t un;
+            d[3] = (un == 0) ? 0 : ((un == 1) ? 0 : subs[s]); d[1] = (un == 1) ? 0x11 : 0x10; un++;       /* 1010h:0, 1011h:0, then 1010h:sub */
+            env_tx_n = 0;
+            env_deliver(&node, 0x600 + OD_NODEID, 8, d);
+            CHECK(env_tx_n == 1 && env_tx[0].Data[0] != 0x80, "1010h / 1011h can be read");
+            CHECK(env_nvm_call_n == calls0 && env_paradef_n == 0, "reading 1010h / 1011h touches neither NVM nor the default callback");
+            for (g = 0; g < G; g++) { for (i = 0; i < 8; i++) { CHECK(od_para_ram[g][i] == ram0[g][i], "reading 1010h / 1011h does not modify the RAM parameters"); } }
+        } else if (o == 'a') {
             for (g = 0; g < G; g++) { ND_BUF(&od_para_ram[g][0], 8); }
         } else if ((o == 's') || (o == 'r')) {
             uint8_t  sub  = subs[s];
